@@ -78,6 +78,8 @@ func c01(w *core.World, r *core.Report) {
 	ruleBatchPoisoned(w, r)
 	r.Rule("R10.16", "merging configured slot ranges is a union: a write on a key whose slot is configured in is not withheld (shared with C10)", 2)
 	ruleRangeMergeIsUnion(w, r)
+	r.Rule("R10.18", "the rebuilt slot list does not overwrite a stored range before it was read: a write on a key whose slot is configured in is not withheld (shared with C10)", 1)
+	ruleRebuiltListStorage(w, r)
 	// seed C01-14: with a slot filter configured, which stream commands are "configured out" is decided by the slot
 	// function; a KeyToSlot that is not HASH_SLOT drops writes of a whitelisted slot and forwards configured-out ones
 	// (R11.1-R11.5, shared with C11)
